@@ -286,6 +286,16 @@ Theorem C13_stop_loses_nothing : forall async ops,
 Proof. exact stop_loses_nothing. Qed.
 Print Assumptions C13_stop_loses_nothing.
 
+(* ---- Stop in two steps (mark the queue, then wait for the drain while keeping the lock DumpTo
+        needs): for every interleaving the bytes written followed by those still queued are the
+        executed DumpTo calls in the order they were made - across Stop the later bytes of an exchange
+        in flight never overtake its earlier, still queued ones ---- *)
+Theorem C13_stop_keeps_order : forall async ops,
+  let '(st, ex) := run_tops true async ops in
+  t_out st ++ tasks_of (t_q st) = ex.
+Proof. exact stop_keeps_order. Qed.
+Print Assumptions C13_stop_keeps_order.
+
 (* ---- the request's own dump buffer across retries: after the reset that precedes the last
         attempt it holds exactly that attempt's dump, whatever the earlier attempts left ---- *)
 Theorem C13_buffer_holds_last_attempt : forall before last,
@@ -354,6 +364,15 @@ Theorem C13_unguarded_clone_refuted :
   in_force (cclone (run_cops ops)) = Some o.
 Proof. exact unguarded_clone_uses_stale_options. Qed.
 Print Assumptions C13_unguarded_clone_refuted.
+
+(* a Stop that unlocks right after marking the queue (f-m3) *)
+Theorem C13_unlocked_stop_reorders :
+  let a := (7%N, bs "part-1 ") in let b := (7%N, bs "part-2 ") in let c := (7%N, bs "part-3") in
+  let ops := [TStart; TDump a; TDump b; TMark; TDump c; TDrain; TDrain; TDrain] in
+  t_out (fst (run_tops false true ops)) = [c; a; b] /\ snd (run_tops false true ops) = [a; b; c] /\
+  t_out (fst (run_tops true true ops)) = [a; b] /\ snd (run_tops true true ops) = [a; b].
+Proof. exact unlocked_stop_reorders. Qed.
+Print Assumptions C13_unlocked_stop_reorders.
 
 (* two drain goroutines on one queue (c-m1) reorder *)
 Theorem C13_two_drainers_reorder :
